@@ -44,6 +44,22 @@ def odd_transports(ctx):
             ctx.violation("odd:" + x["key"].rsplit("/", 1)[0], "NewConn on an unusual transport (%s): %s" % (x["key"], x["diff"]), x)
 
 
+def sequences(ctx):
+    """Connections one after the other and several at a time, in real time outside any bubble: state one NewConn leaves behind
+    (watchers, pooled objects) must not change how the next connection treats its own context."""
+    f = ctx.path("watch-seq.ndjson")
+    rc, out = ctx.go_test("^TestWatchSequences$", env={"VH_OUT": f}, timeout=900)
+    res = vlib.read_ndjson(f)
+    summ = [x for x in res if x.get("summary")]
+    if not summ:
+        raise vlib.Inconclusive("connection-sequence driver did not finish:\n" + out[-1500:])
+    ctx.evaluations += summ[0]["runs"]
+    ctx.notes["sequence_steps"] = summ[0]["runs"]
+    for x in res:
+        if not x.get("summary"):
+            ctx.violation("seq:" + x["key"].split("/")[-1], "NewConn in a sequence of connections (%s): %s" % (x["key"], x["diff"]), x)
+
+
 def run(ctx):
     ctx.rule = ("scenario = (context deadline, instant the hello becomes available, instant the caller cancels) over {-1 (never), 0, 1, 2}^3 "
                 "= 64 scenarios, every one run repeatedly under GOMAXPROCS 1/2/4/16; the caller always cancels again right after NewConn "
@@ -51,5 +67,7 @@ def run(ctx):
     ctx.assumptions = ["Go's select tie (done vs ctx.Done both ready) cannot be forced from outside: real-code coverage of that schedule is "
                        "statistical (many iterations); exhaustiveness is at model level"]
     ctx.mc("EchWatch", "MCEchWatch.cfg", timeout=600)
+    if not ctx.replay:
+        sequences(ctx)
     run_watch(ctx, 12 if ctx.quick else 300, 997)
     odd_transports(ctx)
